@@ -144,8 +144,8 @@ Walk(t, P, i, st, pg, relax, acc) ==
                                Worse(acc, v))
 
 Check(t) ==
-    LET I == [train |-> t.init.train, hard |-> t.init.hard, disable |-> t.init.disable, dc |-> t.init.dc]
-        P == [hasbn |-> t.hasbn, maxv |-> 1]
+    LET I == [train |-> t.init.train, hard |-> t.init.hard, gumbel |-> t.init.gumbel, disable |-> t.init.disable, dc |-> t.init.dc]
+        P == [hasbn |-> t.hasbn, maxv |-> 1, priv |-> FALSE]
     IN  Walk(t, P, 1, Fresh(t.kind, I), t.g0, t.init.gumbel, OK)[2]
 
 Init == tid \in 1..Len(Traces) /\ verdict = Check(Traces[tid])
